@@ -74,7 +74,7 @@ func (c *Case) slot(name string) (*mon.Q, string, error) {
 		return &cr.Pass, "any", nil
 	case cr.Kind == "bearer" && field == "token":
 		return &cr.Token, "header", nil
-	case cr.Kind == "apikey" && field == "token" && cr.In == "header":
+	case cr.Kind == "apikey" && field == "token" && cr.In != "query": // "header" and the oddly spelled locations (header-safe values)
 		return &cr.Token, "header", nil
 	case cr.Kind == "apikey" && field == "token":
 		return &cr.Token, "any", nil
